@@ -1135,6 +1135,9 @@ class StridedInterval:
 
     @property
     def n_values(self):
+        if self.stride == 0:
+            # a single value (or none): there is no stride to divide by
+            return self.cardinality
         return (StridedInterval._wrapped_cardinality(self.lower_bound, self.upper_bound, self.bits) // self.stride) + 1
 
     #
